@@ -514,6 +514,7 @@ fn add_signature(st: &mut State) -> Sx {
 
 pub fn pkg_cmd(st: &mut State, name: &str, args: &[Sx]) -> Option<Sx> {
     match (name, args) {
+        ("x_ffi_probe", []) => Some(ffi_probe(st)),
         ("query_text", [q]) => {
             let l = q.as_list();
             let text = match l[0].as_sym() {
@@ -736,5 +737,54 @@ pub fn pkg_cmd(st: &mut State, name: &str, args: &[Sx]) -> Option<Sx> {
                 _ => panic!("harness: bad arguments for {}", name),
             })
         }
+    }
+}
+
+/// C09: the FFI layer (ffi/src/lib.rs): write the current medium to a file under build/ and call get_information and
+/// get_table for every table through the exported functions; a panic there would cross the C boundary
+pub fn ffi_probe(st: &mut State) -> Sx {
+    use safer_ffi::prelude::*;
+    let bytes = match &st.medium {
+        Some(m) => m.snapshot(),
+        None => return Sx::sym("nopkg"),
+    };
+    let dir = std::env::var("MSI_VERIF_TMP").unwrap_or_else(|_| "/verif/build/tmp".to_string());
+    let _ = std::fs::create_dir_all(&dir);
+    let path = format!("{}/ffi-{}.msi", dir, std::process::id());
+    if std::fs::write(&path, &bytes).is_err() {
+        return Sx::sym("harness_error");
+    }
+    let names: Vec<String> = match st.pkg.as_ref() {
+        Some(p) => p.tables().map(|t| t.name().to_string()).collect(),
+        None => vec!["T".to_string(), "U".to_string(), "_Tables".to_string(), "_Columns".to_string(), "_Validation".to_string()],
+    };
+    // the exported functions are reached as a C caller reaches them: through their C symbols.  A panic inside them
+    // cannot unwind across the C boundary: the process aborts, which the orchestrator attributes to this command.
+    extern "C" {
+        fn get_information(path: char_p::Ref<'_>) -> msi_ffi::MsiInformation;
+        fn free_information(info: msi_ffi::MsiInformation);
+        fn get_table(path: char_p::Ref<'_>, table_name: char_p::Ref<'_>) -> repr_c::Vec<repr_c::Vec<repr_c::String>>;
+        fn free_table(table: repr_c::Vec<repr_c::Vec<repr_c::String>>);
+    }
+    let r = std::panic::catch_unwind(|| {
+        let cpath = char_p::new(path.as_str());
+        let mut rows = 0usize;
+        unsafe {
+            let info = get_information(cpath.as_ref());
+            free_information(info);
+            for n in names.iter().filter(|n| !n.contains('\0')) {
+                // (a C caller cannot pass a name with an interior NUL)
+                let cname = char_p::new(n.as_str());
+                let t = get_table(cpath.as_ref(), cname.as_ref());
+                rows += t.len();
+                free_table(t);
+            }
+        }
+        rows
+    });
+    let _ = std::fs::remove_file(&path);
+    match r {
+        Ok(n) => Sx::ok(Sx::I(n as i128)),
+        Err(_) => Sx::panic(),
     }
 }
